@@ -85,6 +85,12 @@ func ZZ_C22_Torn() {
 		rt.Reach("tail-lost")
 	}
 
+	// the damage need not be at the very end of the unsynced tail: a sector in the middle may be garbage while the
+	// entries written after it reached the disk intact
+	if torn && t+1 < len(img) && rt.Fork("intact-entries-follow-the-damaged-record") {
+		damaged = append(damaged, img[t+1:]...)
+		rt.Reach("damage-inside-the-tail")
+	}
 	zzDisks[logPath("recovered")] = zzDiskOf(damaged)
 	r, err := New(zzConfig("recovered"))
 	if err != nil {
